@@ -397,6 +397,7 @@ func (c *converter) trackAddedIngress() {
 		ctx := convtypes.ResourceHAHostname
 		if port > 0 {
 			ctx = convtypes.ResourceHATCPService
+			c.tracker.TrackNames(convtypes.ResourceIngress, name, ctx, tcpPortTrackingName(port))
 		}
 		if port == 0 {
 			// hostnames of the tls blocks might already exist as well
@@ -451,6 +452,13 @@ func normalizeHostname(hostname string, port int) string {
 		return hostname + ":" + strconv.Itoa(port)
 	}
 	return hostname
+}
+
+// tcpPortTrackingName is the name used to link all the ingress resources
+// that configure the same tcp service port. `*` is not a valid hostname,
+// so it never conflicts with a real tcp service.
+func tcpPortTrackingName(port int) string {
+	return "*:" + strconv.Itoa(port)
 }
 
 func sortIngress(ingress []*networking.Ingress) {
@@ -614,6 +622,10 @@ func (c *converter) syncIngressHTTP(source *annotations.Source, ing *networking.
 }
 
 func (c *converter) syncIngressTCP(source *annotations.Source, ing *networking.Ingress, tcpServicePort int, annTCP, annBack map[string]string) {
+	// TLS and the annotations of a tcp service are configured per port and are
+	// built from all the ingress resources that share it, in their sorting order,
+	// so a partial sync needs to parse all of them again if one of them changes.
+	c.tracker.TrackNames(source.Type, source.FullName(), convtypes.ResourceHATCPService, tcpPortTrackingName(tcpServicePort))
 	addIngressBackend := func(rawHostname string, ingressBackend *networking.IngressBackend) error {
 		hostname := normalizeHostname(rawHostname, tcpServicePort)
 		tcpService, err := c.addTCPService(source, hostname, annTCP)
